@@ -98,8 +98,32 @@ func elemCallName(c *ssa.CallCommon) (string, ssa.Value) {
 	if c.IsInvoke() {
 		return "", nil
 	}
+	fieldName := func(fa *ssa.FieldAddr) string {
+		if st, ok := deref(fa.X.Type()).Underlying().(*types.Struct); ok {
+			return st.Field(fa.Field).Name()
+		}
+		return ""
+	}
+	// m[k](...) where m is a struct field holding a map of functions: "elem:<field>"
+	if lk, ok := c.Value.(*ssa.Lookup); ok {
+		if l2, ok := lk.X.(*ssa.UnOp); ok && l2.Op == token.MUL {
+			if fa, ok := l2.X.(*ssa.FieldAddr); ok {
+				if n := fieldName(fa); n != "" {
+					return "elem:" + n, nil
+				}
+			}
+		}
+		return "", nil
+	}
 	ld, ok := c.Value.(*ssa.UnOp)
 	if !ok || ld.Op != token.MUL {
+		return "", nil
+	}
+	// x.f(...) where f is a struct field holding a function: "field:<f>"
+	if fa, ok := ld.X.(*ssa.FieldAddr); ok {
+		if n := fieldName(fa); n != "" {
+			return "field:" + n, nil
+		}
 		return "", nil
 	}
 	ia, ok := ld.X.(*ssa.IndexAddr)
@@ -156,7 +180,9 @@ func (x *Exec) callInner(fr *Frame, st *State, ci ssa.CallInstruction) []string 
 	x.checkCallsites(fr, st, ci, key, fn, args, argTypes)
 	// a call through an element of a slice variable can be named "elem:<name>" (index: idx)
 	if en, iv := elemCallName(c); en != "" {
-		x.elemIdx = x.val(fr, st, iv)
+		if iv != nil {
+			x.elemIdx = x.val(fr, st, iv)
+		}
 		x.checkCallsites(fr, st, ci, en, nil, args, argTypes)
 		x.elemIdx = ""
 	}
